@@ -4,8 +4,9 @@
 (* A behaviour                                                                                   *)
 (*   1. derives a model (Gen* actions): inputs whose declared shapes mention literal dims, named *)
 (*      symbols (N, M, K: the same name may be used twice) and unnamed dims; a body that mixes   *)
-(*      shape computations (Shape/Size/Gather/Add/Abs/Cast/Concat/Squeeze/Reshape/Slice on int64 *)
-(*      vectors) with data ops (Relu/Add/Reshape/Expand/Concat/Slice on float tensors);          *)
+(*      shape computations (Shape/Size/Gather/Add/Sub/Mul/Abs/Neg/Cast to int64, int32 and back/ *)
+(*      Concat/Squeeze/Reshape/Slice/Identity on integer vectors) with data ops (Relu/Add/       *)
+(*      Reshape/Expand/Concat/Slice/Identity on float tensors);                                  *)
 (*   2. runs ONE pass of onnxscript/optimizer/_constant_folding.py over it, transcribed step by   *)
 (*      step: ResolveAndInfer = process_node's input replacement + _do_inference (the ONNX node   *)
 (*      level shape inference of the ops in the menu, with _merge_shapes), then one action per    *)
@@ -20,9 +21,13 @@
 (*      other than by a shape-preserving map; int64 tensors carry their data) and records, per    *)
 (*      binding, acceptance, outputs, and soundness of every abstract fact.                       *)
 (*                                                                                               *)
-(* Property (design level, Deviations = {}): Sound.  With Deviations = AllDevs the module is the  *)
-(* implementation model: it predicts symbolic_value_map / decisions of the real fold_constants     *)
-(* and, per binding, where the optimised model departs (DevExplains: only via a named deviation). *)
+(* Properties: DesignSound (C09 at design level: in every pass that takes no deviation step every  *)
+(* abstract fact holds at every accepted binding and the folded model returns what the original  *)
+(* returns), ShapesSound, and Sound (the same without the deviation escape: it must FAIL once      *)
+(* Deviations # {}, SymShape_vacuity.cfg).  With Deviations = AllDevs the code's step (named        *)
+(* Dev_* action) is enabled next to the design's step; passes that always took the code's step     *)
+(* (faithful) are the implementation model: Emit prints their symbolic_value_map / shapes /         *)
+(* decisions and, per binding, acceptance, outputs and whether the folded model departs.           *)
 EXTENDS Tensor, TLC, Json
 
 CONSTANTS Deviations,      \* subset of AllDevs
@@ -30,7 +35,7 @@ CONSTANTS Deviations,      \* subset of AllDevs
           MaxNodes,
           Vals,            \* values every free dim is bound to
           Rich,            \* 0: Shape/Add/Abs only (vacuity cfg)  1: reduced menus (exhaustive runs)  2: full menus (simulation)
-          Chain            \* TRUE: node k+1 must consume the output of node k (exhaustive runs reach depth 4)
+          Chain            \* TRUE: node k+1 must consume the output of node k (exhaustive runs then reach depth 3)
 
 VARIABLES ins, nodes, meta, stage, pc, phase, cur, sshape, cval, symmap, dec, rep,
           faithful         \* FALSE once the pass took the design's step where the code takes a deviation
@@ -590,6 +595,6 @@ MenuSim == MenuQuick \cup MenuTwo \cup
             << <<N, M>>, <<N, M>> >>, << <<1, N>>, <<M, 1>> >>, << <<U1, U2, 2>> >>, << <<N, N>> >>, << <<0, N>>, <<M, N>> >>}
 MenuThorough == MenuQuick \cup MenuTwo \cup {<< <<U1, U2>> >>, << <<2, 3>> >>, << <<N, 4>> >>}
 MenuChain == {<< <<N>> >>}
-MenuChainT == MenuQuick \cup {<< <<U1, U2>> >>, << <<N, 1>> >>}
+MenuChainT == {<< <<N>> >>, << <<N, 0>> >>, << <<N, M>> >>, << <<U1, U2>> >>}
 ValsStd == {0, 1, 2, 3, 7}
 =============================================================================
